@@ -256,13 +256,8 @@ theorem writeEncoding_shape (u : Option String) (e : Encoding) (x : XmlNode) (h 
         exact ⟨_, _, rfl, node_noEnc u _ _ _ _ (by decide) ((noEncList_append _ _).mpr ⟨hdv, trivial⟩), trivial⟩
   | str se =>
     simp only [writeEncoding, bind, Except.bind, pure, Except.pure] at h
-    have htail : ∀ (hexf : UInt8 → List Char), NoEncList ((if optTruthy se.leadingSize = true then
-          [mkEl u "LeadingSize" [("sizeInBitsOfSizeTag", toString (se.leadingSize.getD 0))] []] else []) ++
-        match se.termChar with
-        | some t => if List.isEmpty t = true then []
-                    else [mkEl u "TerminationChar" [] [] (some (String.ofList (List.flatMap hexf t)))]
-        | none => []) := by
-      intro hexf
+    have htail : NoEncList (tailKids u se.leadingSize se.termChar) := by
+      unfold tailKids
       rw [noEncList_append]
       constructor
       · split
@@ -275,27 +270,27 @@ theorem writeEncoding_shape (u : Option String) (e : Encoding) (x : XmlNode) (h 
           split
           · trivial
           · exact ⟨leaf_noEnc u _ _ _ (by decide), trivial⟩
-    have hpir : NoEncList ([writeParamInstanceRef u (se.dynRef.getD "") se.useCal] ++
-        match se.adjuster with | some a => [writeLinAdj u a] | none => []) := by
+    have hpir : NoEncList ([writeParamInstanceRef u (se.dynRef.getD "") se.useCal] ++ adjKids u se.adjuster) := by
       refine ⟨pir_noEnc u _ _, ?_⟩
+      unfold adjKids
       cases se.adjuster with
       | none => trivial
       | some a => exact ⟨linadj_noEnc u a, trivial⟩
-    simp only [mkEl] at h htail hpir
+    simp only [mkEl] at h hpir
     split at h
     · injection h with h; subst h
       refine ⟨_, _, rfl, ?_⟩
       simp only [NoEnc, NoEncList, and_true]
       refine ⟨by decide, ?_⟩
-      rw [List.append_assoc, noEncList_append]
-      exact ⟨by simp [NoEnc, NoEncList, plainTag], htail _⟩
+      rw [noEncList_append]
+      exact ⟨by simp [NoEnc, NoEncList, plainTag], htail⟩
     · split at h
       · injection h with h; subst h
         refine ⟨_, _, rfl, ?_⟩
         simp only [NoEnc, NoEncList, and_true]
         refine ⟨by decide, ?_⟩
-        rw [List.append_assoc, noEncList_append]
-        exact ⟨⟨⟨by decide, hpir⟩, trivial⟩, htail _⟩
+        rw [noEncList_append]
+        exact ⟨⟨⟨by decide, hpir⟩, trivial⟩, htail⟩
       · split at h
         · cases hm : (se.lookup.getD []).mapM (writeDiscreteLookup u) with
           | error e => simp [hm] at h
@@ -304,8 +299,8 @@ theorem writeEncoding_shape (u : Option String) (e : Encoding) (x : XmlNode) (h 
             refine ⟨_, _, rfl, ?_⟩
             simp only [NoEnc, NoEncList, and_true]
             refine ⟨by decide, ?_⟩
-            rw [List.append_assoc, noEncList_append]
-            exact ⟨⟨⟨by decide, lookups_noEnc u _ ys hm⟩, trivial⟩, htail _⟩
+            rw [noEncList_append]
+            exact ⟨⟨⟨by decide, lookups_noEnc u _ ys hm⟩, trivial⟩, htail⟩
         · cases h
 
 /-! ### from `NoEnc` to the descendant search -/
